@@ -229,59 +229,58 @@ theorem createBucket_refines (H : Hashes) (dl : Nat) {s : State} (hi : Inv s) {b
           · simp at he; subst he; simp at hx
   · simp [step, StoreSpec.step, hbd, hbo, hi]
 
-/-- `delete_bucket` comparable: the name agrees and the bucket holds no object [else fs:delete-nonempty-bucket] -/
-def DeleteBucketOk (s : State) (b : Bytes) : Prop :=
-  NameOk b ∧
-  match s.tree b with
-  | none => True
-  | some t => t.files = []
+/-- the abstraction of a bucket directory is empty exactly when the directory holds no file -/
+theorem absTree_nil_iff_files {s : State} {b : Bytes} {t : Tree} : absTree s b t = [] ↔ t.files = [] := by
+  unfold absTree Tree.files
+  rw [List.filterMap_eq_nil_iff, List.filterMap_eq_nil_iff]
+  constructor
+  · intro h e he
+    have := h e he
+    obtain ⟨p, n⟩ := e
+    cases n with
+    | dir => rfl
+    | file c => simp [absObj] at this
+  · intro h e he
+    have := h e he
+    obtain ⟨p, n⟩ := e
+    cases n with
+    | dir => rfl
+    | file c => simp at this
 
-theorem absTree_nil_of_files {s : State} {b : Bytes} {t : Tree} (h : t.files = []) : absTree s b t = [] := by
-  unfold absTree
-  unfold Tree.files at h
-  rw [List.filterMap_eq_nil_iff] at h ⊢
-  intro e he
-  have := h e he
-  obtain ⟨p, n⟩ := e
-  cases n with
-  | dir => rfl
-  | file c => simp at this
-
-theorem deleteBucket_refines (H : Hashes) (dl : Nat) {s : State} (hi : Inv s) {b : Bytes} (hg : DeleteBucketOk s b) :
+/-- `delete_bucket`: any name both sides accept or both refuse; a bucket that holds objects is refused by both
+    (`BucketNotEmpty`, dbc4627; before: fs:delete-nonempty-bucket), an empty one — directories left behind do not count —
+    is gone on both sides -/
+theorem deleteBucket_refines (H : Hashes) (dl : Nat) {s : State} (hi : Inv s) {b : Bytes} (hname : NameOk b) :
     (step H dl s (.deleteBucket b)).2 = (StoreSpec.step H (abs s) (.deleteBucket b)).2 ∧
     abs (step H dl s (.deleteBucket b)).1 = (StoreSpec.step H (abs s) (.deleteBucket b)).1 ∧
     Inv (step H dl s (.deleteBucket b)).1 := by
-  obtain ⟨hname, hempty⟩ := hg
   rcases hname.cases with ⟨hbo, hbd⟩ | ⟨hbo, hbd⟩
   · cases ht : s.tree b with
     | none =>
-      have hh : alHas b s.buckets = false := by
-        unfold State.tree at ht; simp [alHas, ht]
       have habs : (abs s).bucket b = none := by rw [abs_bucket, ht]; rfl
-      simp [step, StoreSpec.step, hbd, hbo, hh, habs, hi]
+      simp [step, StoreSpec.step, hbd, hbo, ht, habs, hi]
     | some t =>
-      rw [ht] at hempty
-      simp only at hempty
-      have hh : alHas b s.buckets = true := by
-        unfold State.tree at ht; simp [alHas, ht]
-      have habs : (abs s).bucket b = some [] := by
-        rw [abs_bucket, ht]; simp [absTree_nil_of_files hempty]
-      have hstep : step H dl s (.deleteBucket b) = ({ s with buckets := alErase b s.buckets }, .ok) := by
-        simp [step, hbd, hh]
-      have hspec : StoreSpec.step H (abs s) (.deleteBucket b) =
-          ({ abs s with buckets := alErase b (abs s).buckets }, .ok) := by
-        simp [StoreSpec.step, hbo, habs]
-      rw [hstep, hspec]
-      refine ⟨rfl, ?_, ?_⟩
-      · apply Store.ext'
-        · have := abs_buckets_congr (s := s) (s' := { s with buckets := alErase b s.buckets }) rfl rfl
-          rw [this, abs_buckets]
-          exact alErase_map_val (fun b t => absTree s b t) b s.buckets
-        · exact abs_uploads_congr rfl rfl rfl
-        · rfl
-      · refine ⟨keysNodup_alErase hi.bnd, ?_, ?_, hi.metaOk, hi.und, hi.pnd, hi.upIds, hi.partIds, hi.upMetaIds⟩
-        · intro e he; exact hi.tnd e (alErase_mem he)
-        · intro e he; exact hi.paths e (alErase_mem he)
+      have habs : (abs s).bucket b = some (absTree s b t) := by rw [abs_bucket, ht]; rfl
+      by_cases hempty : t.files = []
+      · have hnil : absTree s b t = [] := absTree_nil_iff_files.mpr hempty
+        have hstep : step H dl s (.deleteBucket b) = ({ s with buckets := alErase b s.buckets }, .ok) := by
+          simp [step, hbd, ht, hempty]
+        have hspec : StoreSpec.step H (abs s) (.deleteBucket b) =
+            ({ abs s with buckets := alErase b (abs s).buckets }, .ok) := by
+          simp [StoreSpec.step, hbo, habs, hnil]
+        rw [hstep, hspec]
+        refine ⟨rfl, ?_, ?_⟩
+        · apply Store.ext'
+          · have := abs_buckets_congr (s := s) (s' := { s with buckets := alErase b s.buckets }) rfl rfl
+            rw [this, abs_buckets]
+            exact alErase_map_val (fun b t => absTree s b t) b s.buckets
+          · exact abs_uploads_congr rfl rfl rfl
+          · rfl
+        · refine ⟨keysNodup_alErase hi.bnd, ?_, ?_, hi.metaOk, hi.und, hi.pnd, hi.upIds, hi.partIds, hi.upMetaIds⟩
+          · intro e he; exact hi.tnd e (alErase_mem he)
+          · intro e he; exact hi.paths e (alErase_mem he)
+      · have hne : absTree s b t ≠ [] := fun h => hempty (absTree_nil_iff_files.mp h)
+        simp [step, StoreSpec.step, hbd, hbo, ht, habs, hempty, hne, hi]
   · simp [step, StoreSpec.step, hbd, hbo, hi]
 
 theorem headBucket_refines (H : Hashes) (dl : Nat) {s : State} (hi : Inv s) {b : Bytes} (hg : NameOk b) :
